@@ -80,6 +80,12 @@ type Obj struct {
 	PeerGone bool
 }
 
+// NetConn returns the net.Conn under an adapter object (nil otherwise).
+func (o *Obj) NetConn() net.Conn {
+	nc, _ := o.keep.(net.Conn)
+	return nc
+}
+
 func (o *Obj) String() string { return fmt.Sprintf("%s#%d", o.Kind, o.ID) }
 
 type Op struct {
